@@ -69,8 +69,9 @@ def predict (hidden : Bool) (pol : Policy) (sCert sPoss : Bool) (cf : CertFacts)
 
 def step (_ : Unit) : List String → Unit × String
   | ["hs", mode, pol, sAdv, cAdv, listed, name] =>
-    let hidden := mode == "ik"
-    if mode ≠ "xx" ∧ mode ≠ "ik" then ((), "bad-op") else
+    -- ik2, ik3: hidden mode, the addressed certificate is the 2nd / 3rd of the server's list
+    let hidden := mode != "xx"
+    if mode ∉ ["xx", "ik", "ik2", "ik3"] then ((), "bad-op") else
     if listed ≠ "0" ∧ listed ≠ "1" ∧ listed ≠ "2" then ((), "bad-op") else
     -- "2": the key was authorized and has been revoked again: not listed
     match policyOf pol, serverCertOK sAdv (name == "name"), clientFacts cAdv (listed == "1") with
